@@ -52,10 +52,12 @@ func cycleTag(args string) (func(io.Writer, render.Context) error, error) {
 		if loopVar == nil {
 			return ctx.Errorf("cycle must be within a forloop")
 		}
-		// The next few lines could panic if the user spoofs us by creating their own loop object.
-		// “C++ protects against accident, not against fraud.” – Bjarne Stroustrup
-		loopRec := loopVar.(map[string]any)
-		cycleMap := loopRec[".cycles"].(map[string]int)
+		// A template can assign its own "forloop"; that is not a loop record.
+		loopRec, _ := loopVar.(map[string]any)
+		cycleMap, ok := loopRec[".cycles"].(map[string]int)
+		if !ok {
+			return ctx.Errorf("cycle must be within a forloop")
+		}
 		group, values := cycle.Group, cycle.Values
 		n := cycleMap[group]
 		cycleMap[group] = n + 1
